@@ -4,6 +4,8 @@ sketch handles, one Python-API-level operation per line.
 -/
 import SmVerif.Model.MinHash
 import SmVerif.Model.Proto
+import SmVerif.Model.SeqToHashes
+import SmVerif.Model.Murmur3
 
 namespace Sm.DriverMh
 
@@ -36,9 +38,70 @@ def fin (st : St) (r : Nat) (x : Except MH.Err MH) : St × String :=
   | .ok s => (put st r s, showMH s)
   | .error e => (st, "err " ++ errName e)
 
+/-! Signature objects (`SourmashSignature`): a signature CONTAINS a sketch (it is cloned in by the
+constructor / the `.minhash` setter and cloned out by the `.minhash` getter), so a signature cell is an `MH`
+value of its own, kept in the upper half of the handle table (slot `32 + S`).  `sig.add_sequence` mutates that
+inner sketch through `KmerMinHash::add_sequence` (k-mer hashing: `Model/SeqToHashes.lean` + `Model/Murmur3.lean`);
+`sig.md5sum()` clones the inner sketch out (filling its cache) and asks the clone. -/
+
+def sigSlot (s : Nat) : Nat := 32 + s
+
+/-- what the adapter prints for a signature: k, current hashes, `sig.md5sum()`, md5 of `sig.minhash` -/
+def showSig (st : St) (s : Nat) : St × String :=
+  match get st (sigSlot s) with
+  | none => (st, "bad-op")
+  | some cell =>
+    let (cell1, out1) := cell.clone          -- sig.md5sum(): self.minhash (clone out) ...
+    let d1 := out1.md5sum.2                   -- ... kmerminhash_md5sum on the clone
+    let (cell2, out2) := cell1.clone          -- sig.minhash again, for the second answer
+    let d2 := out2.md5sum.2
+    (put st (sigSlot s) cell2,
+     s!"sig k={cell.ksize} mins={joinNats cell.mins} {showDigest d1} | {showDigest d2}")
+
+def sigStep (st : St) (ws : List String) : Option (St × String) :=
+  match ws with
+  | ["sig", s, h] => do
+    let s ← nat? s
+    let h ← nat? h
+    let src ← get st h
+    let (src', c) := src.clone               -- signature_set_mh clones the sketch in
+    pure (showSig (put (put st h src') (sigSlot s) c) s)
+  | ["sigsetmh", s, h] => do
+    let s ← nat? s
+    let h ← nat? h
+    let _ ← get st (sigSlot s)
+    let src ← get st h
+    let (src', c) := src.clone
+    pure (showSig (put (put st h src') (sigSlot s) c) s)
+  | ["sigmd5", s] => do
+    let s ← nat? s
+    let _ ← get st (sigSlot s)
+    pure (showSig st s)
+  | ["sigadd", s, seq, force] => do
+    let s ← nat? s
+    let f ← bool? force
+    let cell ← get st (sigSlot s)
+    let bytes := seq.toList.map Char.toNat
+    let (hs, err) := Seq.Py.addSequence (Murmur3.hashNat cell.seed) .dna cell.ksize bytes f
+    let cell' := cell.addMany hs              -- hashes offered before an error stay in the sketch
+    let st' := put st (sigSlot s) cell'
+    match err with
+    | none => pure (showSig st' s)
+    | some _ => pure (st', "err ValueError")
+  | ["sigcopy", r, s] => do                   -- pickle round trip of the signature: a value copy (JSON inside)
+    let r ← nat? r
+    let s ← nat? s
+    let cell ← get st (sigSlot s)
+    let (cell', c) := cell.clone
+    pure (showSig (put (put st (sigSlot s) cell') (sigSlot r) c) r)
+  | _ => none
+
 def step (st : St) (line : String) : St × String :=
   let bad := (st, "bad-op")
   if line.startsWith "@" then (st, "skip") else   -- implementation-only observation (oracle decides)
+  match sigStep st (words line) with
+  | some r => r
+  | none =>
   match words line with
   | "#" :: _ => (init, "#")
   | ["new", r, num, scaled, track, ksize, seed] =>
